@@ -55,7 +55,7 @@ def findOrAddCore (i : Nat) (v w : Int) : M Int := fun m =>
   let w' := if w < 0 then -w else w
   if v' = w' then (.ok (r * v'), m) else
   let t : Nd := ⟨i, v', w'⟩
-  match m.pred[t]? with
+  match m.pred[t.key]? with
   | some u => (.ok (r * (u : Int)), m)
   | none =>
     let u := m.minFree
@@ -64,7 +64,7 @@ def findOrAddCore (i : Nat) (v w : Int) : M Int := fun m =>
     let succ' := m.tbl.succ.insert u t
     let m1 : Mgr := { m with
       tbl := { m.tbl with succ := succ' }
-      pred := m.pred.insert t u
+      pred := m.pred.insert t.key u
       ref := m.ref.insert u 0
       minFree := nextFree succ' (succ'.size + 2) u }
     match incref v' m1 with
@@ -76,7 +76,8 @@ def findOrAddCore (i : Nat) (v w : Int) : M Int := fun m =>
 
 /-- `find_or_add(i, v, w)` for a level given as a Python int -/
 def findOrAdd (i : Int) (v w : Int) : M Int := do
-  requestReordering
+  -- `if self._reordering_context: _request_reordering(self)`
+  if (← M.get).ctx then requestReordering
   if i < 0 then M.throw .value
   findOrAddCore i.toNat v w
 
@@ -102,7 +103,7 @@ def iteF : Nat → Int → Int → Int → M Int
     if g = 1 then return u
     if g = -1 then return v
     let m ← M.get
-    match m.cache[(g, u, v)]? with
+    match m.cache[iteKey g u v]? with
     | some w => return w
     | none =>
       let lg ← M.ofOption .key (m.tbl.levelOf? g)
@@ -115,7 +116,7 @@ def iteF : Nat → Int → Int → Int → M Int
       let p ← iteF f g0 u0 v0
       let q ← iteF f g1 u1 v1
       let w ← findOrAdd z p q
-      M.modify fun m => { m with cache := m.cache.insert (g, u, v) w }
+      M.modify fun m => { m with cache := m.cache.insert (iteKey g u v) w }
       return w
 
 /-- `_ite` with the fuel the invariant makes sufficient -/
